@@ -69,13 +69,27 @@ Definition bounded_fs (mask : N) : fs := (select_mask (mk_fs bounded_optional) m
 Definition bounded_ok : bool :=
   forallb (fun pr =>
     forallb (fun mask =>
-      let f := bounded_fs mask in
-      forallb (fun src => forallb (fun lit => conv_ok (fst pr) (snd pr) f src lit) bounded_literals) bounded_sources)
+      forallb (fun src =>
+        forallb (fun lit => conv_ok (fst pr) (snd pr) (bounded_fs mask) src lit) bounded_literals)
+        bounded_sources)
       bounded_masks)
     bounded_pairs.
 
 Lemma bounded_ok_true : bounded_ok = true.
 Proof. vm_compute. reflexivity. Qed.
+
+Lemma bounded_all :
+  forall pr, In pr bounded_pairs -> forall mask, In mask bounded_masks ->
+  forall src, In src bounded_sources -> forall lit, In lit bounded_literals ->
+  conv_ok (fst pr) (snd pr) (bounded_fs mask) src lit = true.
+Proof.
+  intros pr Hp mask Hm src Hs lit Hl.
+  pose proof bounded_ok_true as H0.
+  pose proof (proj1 (forallb_forall _ _) H0 pr Hp) as H1. clear H0.
+  pose proof (proj1 (forallb_forall _ _) H1 mask Hm) as H2. clear H1.
+  pose proof (proj1 (forallb_forall _ _) H2 src Hs) as H3. clear H2.
+  exact (proj1 (forallb_forall _ _) H3 lit Hl).
+Qed.
 
 Theorem convert_keeps_target_bounded :
   forall cur tgt mask src lit t,
@@ -86,12 +100,8 @@ Theorem convert_keeps_target_bounded :
     exists t', find_require tgt [] (bounded_fs mask) src (generate_require tgt src t) = Found t' /\ same_file t' t = true.
 Proof.
   intros cur tgt mask src lit t Hp Hm Hs Hl Hfind Ha Hr.
-  pose proof bounded_ok_true as H. unfold bounded_ok in H.
-  rewrite forallb_forall in H. specialize (H _ Hp). cbn [fst snd] in H.
-  rewrite forallb_forall in H. specialize (H _ Hm). cbv zeta in H.
-  rewrite forallb_forall in H. specialize (H _ Hs).
-  rewrite forallb_forall in H. specialize (H _ Hl).
-  unfold conv_ok in H. rewrite Hfind, Ha, Hr, !orb_false_r in H.
+  pose proof (bounded_all (cur, tgt) Hp mask Hm src Hs lit Hl) as H.
+  unfold conv_ok, fst, snd in H. rewrite Hfind, Ha, Hr, !orb_false_r in H.
   destruct (find_require tgt [] (bounded_fs mask) src (generate_require tgt src t)) as [t'|]; [|discriminate].
   exists t'. split; [reflexivity|exact H].
 Qed.
